@@ -104,7 +104,7 @@ Lemma name_ok_facts n : name_ok n = true ->
   symbol_name (escape_id n) = Some n /\ String.eqb n "true" = false /\ String.eqb n "false" = false.
 Proof.
   unfold name_ok. destruct (symbol_name (escape_id n)) as [n'|]; [|discriminate].
-  rewrite andb_true_iff, negb_true_iff. intros [He Ht]. apply String.eqb_eq in He. subst n'.
+  rewrite andb_true_iff, negb_true_iff, orb_false_iff. intros [He [Ht _]]. apply String.eqb_eq in He. subst n'.
   split; [reflexivity|].
   unfold is_theory_name, str_in in Ht.
   split; destruct (String.eqb_spec n "true") as [-> | _]; try reflexivity;
@@ -507,9 +507,10 @@ Qed.
 
 (** what [name_ok] asks of a name, in terms of the standard's notions *)
 Lemma name_ok_intro n :
-  name_chars_ok n = true -> is_reserved n = false -> is_theory_name n = false -> name_ok n = true.
+  name_chars_ok n = true -> is_reserved n = false -> is_theory_name n = false ->
+  is_solver_reserved n = false -> name_ok n = true.
 Proof.
-  intros Hc Hr Ht. unfold name_ok. rewrite (escape_sound_lemma n Hc Hr), String.eqb_refl, Ht. reflexivity.
+  intros Hc Hr Ht Hs. unfold name_ok. rewrite (escape_sound_lemma n Hc Hr), String.eqb_refl, Ht, Hs. reflexivity.
 Qed.
 
 (** the latent defect behind [built]: for a one-bit source even the intended output of a
